@@ -106,21 +106,25 @@ Proof.
   revert s. induction es as [| e t IH]; intros s R H; simpl in *; auto. destruct H as [H1 H2]. apply IH; auto. apply reach_step; auto.
 Qed.
 
-(* the public new_var(const lin&) as it is in the code: without its precondition the defining equation of the new
-   variable is lost (witness: t = 2*s over the basic slack s = x + y, then x >= 1 is asserted; values t = 0, s = 1) *)
-Definition refute_events : list event :=
+(* the public new_var(const lin&) over a basic variable and with a known term (since fix 8c419ea the row is normalised):
+   t = 2*s + 1 over the basic slack s = x + y, then x >= 1 is asserted; the defining equation holds on the values *)
+Definition nvl_events : list event :=
   [ENewVar; ENewVar;
    ENewVarLin (mkLin [(0%nat, 1); (1%nat, 1)] 0);
-   ENewVarLin (mkLin [(2%nat, 2)] 0);
+   ENewVarLin (mkLin [(2%nat, 2)] 1);
    ENewRel Rgeq (lin_var 0%nat) (mkLin [] 1) 1%nat;
    EPropagate (fun v => if Nat.eqb v 1%nat then Some true else if Nat.eqb v 0%nat then Some false else None) (1%nat, true);
    ECheck 100%nat].
-Lemma new_var_lin_unguarded_refuted :
-  let s := run refute_events init_state in
-  In (3%nat, mkLin [(2%nat, 2)] 0) (tableau s) /\ ~ (valq 0 (vals s) 3%nat == evalq (valq 0 (vals s)) (mkLin [(2%nat, 2)] 0)).
-Proof.
-  vm_compute. split; [auto |]. intro H. discriminate.
-Qed.
+Lemma nvl_example :
+  let s := run nvl_events init_state in
+  In (mkLin [(2%nat, 2)] 1, 3%nat) (exprs s) /\ valq 0 (vals s) 3%nat == evalq (valq 0 (vals s)) (mkLin [(2%nat, 2)] 1) /\
+  trow (tableau s) 3%nat = Some (mkLin [(0%nat, 2); (1%nat, 2)] 1).
+Proof. vm_compute. split; [auto | split; reflexivity]. Qed.
+
+Lemma top_set_bound_sound s al d x v :
+  reach s -> layers s = [] -> (x < nvars s)%nat -> sign_ok (x, d, v) ->
+  emits_valid_given TRUE_lit (x, d, v) (match d with Lower => assert_lower s al x v TRUE_lit | Upper => assert_upper s al x v TRUE_lit end).
+Proof. intro R. apply set_bound_sound. apply wf_reach. exact R. Qed.
 
 (* ---------------------------------------------------------------------------------------------------------- *)
 (* C11                                                                                                           *)
